@@ -83,15 +83,58 @@ def canon_ids(text, idmap):
     return re.sub(r"(?<![0-9])[0-9]{6,}(?![0-9])", rep, text)
 
 
+class BuildError(Exception):
+    """the metamodel/model could not be built: nothing was exported, the property says nothing"""
+
+
+def user_class(rule, shape):
+    """A user class for grammar rule `rule` (classes=[...]) with special methods of the given shape.  Equality and hash
+    never look at identity: `value` compares the primitive attribute values, `const` makes all instances equal."""
+    def __init__(self, **kw):
+        for k, v in kw.items():
+            setattr(self, k, v)
+
+    def key(self):
+        return tuple(sorted((k, repr(v)) for k, v in vars(self).items()
+                            if not k.startswith("_") and k != "parent" and type(v) in PRIMITIVE_PYTHON_TYPES))
+
+    def eq(self, other):
+        return type(other) is type(self) and key(self) == key(other)
+    ns = {"__init__": __init__}
+    if shape == "value":
+        ns.update(__eq__=eq, __hash__=lambda self: hash(key(self)))
+    elif shape == "const":
+        ns.update(__eq__=lambda self, other: type(other) is type(self), __hash__=lambda self: 7)
+    elif shape == "unhashable":
+        ns.update(__eq__=eq, __hash__=None)
+    elif shape == "falsy_len":
+        ns.update(__len__=lambda self: 0)
+    elif shape == "falsy_bool":
+        ns.update(__bool__=lambda self: False)
+    elif shape == "strrepr":
+        ns.update(__str__=lambda self: 'a"b{|}\\', __repr__=lambda self: '<"|{>')
+    elif shape != "plain":
+        raise ValueError("unknown class shape " + shape)
+    return type(rule, (), ns)
+
+
 def run_model(case, d):
     mode = case.get("mode", "single")
-    mm = metamodel_from_str(case["grammar"], global_repository=True) if mode == "globalrepo" else metamodel_from_str(case["grammar"])
-    models = []
-    for f in case["files"]:
-        p = os.path.join(d, f["name"])
-        with open(p, "w", encoding="utf-8") as fh:
-            fh.write(f["text"])
-        models.append(mm.model_from_file(p))
+    try:
+        kw = {}
+        if case.get("classes"):
+            kw["classes"] = [user_class(c["rule"], c["shape"]) for c in case["classes"]]
+        if mode == "globalrepo":
+            kw["global_repository"] = True
+        mm = metamodel_from_str(case["grammar"], **kw)
+        models = []
+        for f in case["files"]:
+            p = os.path.join(d, f["name"])
+            with open(p, "w", encoding="utf-8") as fh:
+                fh.write(f["text"])
+            models.append(mm.model_from_file(p))
+    except Exception as e:
+        raise BuildError("%s: %s" % (type(e).__name__, e)) from e
     order, seen = [], {}
     for m in models:
         o2, s2 = walk(m, case.get("values", []))
@@ -198,7 +241,9 @@ def main():
                     r = run_metamodel(case, d)
                 else:
                     r = run_escape(case, d)
-                r["exc"] = None
+                r.setdefault("exc", None)
+            except BuildError as e:
+                r = {"exc": None, "build_exc": str(e)}
             except Exception as e:  # reported to the check, which decides
                 import traceback
                 r = {"exc": "%s: %s" % (type(e).__name__, e), "tb": traceback.format_exc()[-1500:]}
